@@ -14,6 +14,7 @@ if ! git apply "$PATCH"; then res patchfail - - -; git -C /repo worktree remove 
 if GOPROXY=off go build ./... 2>/tmp/sv/$NAME.build.log; then B=ok; else B=FAIL; fi
 SUITE=$(python3 /verif/tools/baseline_check.py "$WT" | head -1)
 cp "$DEMO" "$DEST"
+if [ -n "${EXTRA_DEMO:-}" ]; then cp "$EXTRA_DEMO" "$(dirname "$DEST")/zz_extra_helper_test.go"; fi
 timeout 600 env GOPROXY=off go test -vet=off -count=1 -run "$RUN" "$@" "$PKG" > /tmp/sv/$NAME.with.log 2>&1; W=$?
 git apply -R "$PATCH"
 timeout 600 env GOPROXY=off go test -vet=off -count=1 -run "$RUN" "$@" "$PKG" > /tmp/sv/$NAME.without.log 2>&1; WO=$?
